@@ -25,7 +25,7 @@ func NewSynGen(r *Rand, module bool, strict bool) *SynGen {
 
 func (g *SynGen) stat(k string) { g.Stats[k]++ }
 
-var ctxKeywords = []string{"async", "of", "get", "set", "static", "from", "as", "type", "let", "yield", "await", "target", "meta", "accessor", "using", "arguments", "eval", "undefined", "NaN", "constructor", "prototype", "name", "length", "new", "x", "y", "z", "$", "_", "a\\u0062c", "\\u{61}", "ℝ", "ﬁ", "ª", "async_", "let_", "of2"}
+var ctxKeywords = []string{"async", "of", "get", "set", "static", "from", "as", "type", "let", "yield", "await", "target", "meta", "accessor", "using", "arguments", "eval", "undefined", "NaN", "constructor", "prototype", "name", "length", "new", "x", "y", "z", "$", "_", "a\\u0062c", "\\u{61}", "ℝ", "ﬁ", "ª", "async_", "let_", "of2", "\U00010000", "x\U00010000"}
 
 func (g *SynGen) ident() string {
 	r := g.R
@@ -293,7 +293,7 @@ func (g *SynGen) Stmt(d int) string {
 		g.stat("label")
 		forms := []string{"a: b: for (;;) { break a; }\n", "a: b: for (;;) { continue a; }\n", "o: m: i: while (x) { if (y) continue o; else continue m; }\n", "a: { break a; }\n", "a: for (;;) { continue a; }\n", "x: y: z: ;\n", "a: if (b) break a; else c;\n", "L: do { continue L; } while (0);\n", "a: for (x of y) for (z in w) continue a;\n", "l: while (1) { m: for (;;) { break l; } }\n"}
 		if !g.Strict {
-			forms = append(forms, "a: function f() {}\n", "yield: 1;\n", "let: 1;\n", "await_: 1;\n", "static: x;\n", "if (a) function f() {}\n", "a: b: function g() {}\n")
+			forms = append(forms, "a: for (var x = 0 in y) { continue a; }\n", "a: b: for (var x = f() in y) continue b;\n", "if (z) c: for (var x = 1 in y) break c;\n", "a: function f() {}\n", "yield: 1;\n", "let: 1;\n", "await_: 1;\n", "static: x;\n", "if (a) function f() {}\n", "a: b: function g() {}\n")
 		}
 		return forms[r.Intn(len(forms))]
 	case 2:
@@ -303,7 +303,8 @@ func (g *SynGen) Stmt(d int) string {
 			"for (var x = (1 in y); x; ) ;\n", "for (async of => 1; ; ) ;\n", "for ((async) of x) ;\n", "for (let [x] = y; ; ) break;\n", "for (;;) { break }\n", "for (var i = 0, j = 1; i < j; i++, j--) ;\n",
 			"for (x of (a, b)) ;\n", "for (var x of y, z) ;\n", "for (a in b, c) ;\n", "for (let\nx of y) ;\n", "for (of of of) ;\n", "for (var of of of) ;\n", "for (of in of) ;\n", sloppyOnly("for (let of in of) ;\n", g.Strict),
 			"for ((a, b) in c) ;\n", "for (x = (a in b); ; ) ;\n", "for (var x = a ? b in c : d; ; ) ;\n", sloppyOnly("for (let.x of y) ;\n", g.Strict),
-		}[r.Intn(25)]
+			sloppyOnly("for (var x = 0 in y) ;\n", g.Strict), "for (var " + g.ident() + " of []) ;\n", g.ident() + " in x;\n", g.ident() + " instanceof x;\n",
+		}[r.Intn(29)]
 	case 3:
 		g.stat("decl")
 		id := g.ident()
